@@ -142,7 +142,8 @@ qlisttbl_t *qconfig_parse_file(qlisttbl_t *tbl, const char *filepath,
                     *tmpp != '\n' && *tmpp != '\0'; tmpp++)
                 ;
             int len = tmpp - (strp + CONST_STRLEN(_INCLUDE_DIRECTIVE));
-            if (len >= sizeof(buf)) {
+            // buf also has to hold the whole directive line later on
+            if (len + CONST_STRLEN(_INCLUDE_DIRECTIVE) >= sizeof(buf)) {
                 DEBUG("Can't process %s directive.", _INCLUDE_DIRECTIVE);
                 free(str);
                 return NULL;
